@@ -31,6 +31,7 @@ def _unescape(c):
     for name, m in c["modules"].items():
         out["modules"][uq(name)] = {
             "cables": {uq(k): v for k, v in m["cables"].items()},
+            "ctypes": {uq(k): v for k, v in m["ctypes"].items()}, "timescale": m["timescale"],
             "conn": {(uq(k[0]), k[1]): frozenset(ep(e) for e in v) for k, v in m["conn"].items()},
             "insts": {uq(k): (uq(v[0]), v[1], v[2]) for k, v in m["insts"].items()},
             "assigns": sorted([(w, frozenset(((uq(a[0]), a[1]) if a else a, (uq(b[0]), b[1]) if b else b) for a, b in prs)) for w, prs in m["assigns"]], key=repr),
@@ -83,6 +84,8 @@ def _extract(n):
                     continue
                 insts[x.name] = (r.name, dict(x.get("VERILOG.Parameters", {}) or {}), dict(x.get("VERILOG.InlineConstraints", {}) or {}))
             out["modules"][d.name] = {
+                "ctypes": {c.name: c.get("VERILOG.CableType") or "wire" for c in d.cables},
+                "timescale": d.get("VERILOG.TimeScale"),
                 "cables": cables, "conn": conn, "insts": insts, "assigns": sorted(assigns, key=repr),
                 "ports": [(p.name, DIRNAME[p.direction.name], len(p.pins), p.lower_index) for p in d.ports],
                 "params": dict(d.get("VERILOG.Parameters", {}) or {}), "attrs": dict(d.get("VERILOG.InlineConstraints", {}) or {})}
@@ -97,7 +100,7 @@ def diff(exp, got):
         return ("modules", "%s != %s" % (sorted(exp["modules"]), sorted(got["modules"])))
     for name, e in exp["modules"].items():
         g = got["modules"][name]
-        for k in ("ports", "cables", "insts", "params", "attrs"):
+        for k in ("ports", "cables", "ctypes", "timescale", "insts", "params", "attrs"):
             if e[k] != g[k]:
                 return (k, "%s.%s: expected %r got %r" % (name, k, e[k], g[k]))
         if sorted(e["assigns"], key=repr) != sorted(g["assigns"], key=repr):
